@@ -3,6 +3,7 @@ package main
 // C07 — ReadOnlyFs: every mutator fails with a permission error, nothing done through the
 // wrapper or its handles changes the source, reads are transparent.
 import (
+	"bytes"
 	"fmt"
 	"os"
 	"sort"
@@ -280,5 +281,50 @@ func runC07OddArguments(c *Ctx) {
 			}
 		}
 	}
-	c.Extra["odd_arguments"] = fmt.Sprintf("%d modifying calls with no-op looking arguments (zero times, same values, missing names) through ReadOnlyFs over MemMapFs: refused, source dump unchanged (oracle only)", n)
+	// writes through handles from the wrapper, positioned where a write would "only" append (exactly at
+	// the end of a file written once, whose buffer has spare capacity), in every spelling of a write
+	for depth := 1; depth <= 2; depth++ {
+		for _, size := range []int{0, 1, 5, 8, 9, 4096} {
+			for _, open := range []string{"Open", "OpenFile"} {
+				src := afero.NewMemMapFs()
+				afero.WriteFile(src, "/f", bytes.Repeat([]byte("h"), size), 0o644)
+				old := time.Unix(1000000000, 0)
+				src.Chtimes("/f", old, old)
+				var w afero.Fs = src
+				for i := 0; i < depth; i++ {
+					w = afero.NewReadOnlyFs(w)
+				}
+				var h afero.File
+				var err error
+				if open == "Open" {
+					h, err = w.Open("/f")
+				} else {
+					h, err = w.OpenFile("/f", os.O_RDONLY, 0)
+				}
+				if err != nil {
+					continue
+				}
+				for _, pos := range []int64{int64(size), 0, int64(size) / 2} {
+					for wi, write := range []func() (int, error){
+						func() (int, error) { h.Seek(pos, 0); return h.WriteString("ab") },
+						func() (int, error) { h.Seek(pos, 0); return h.Write([]byte("ab")) },
+						func() (int, error) { return h.WriteAt([]byte("ab"), pos) },
+						func() (int, error) { h.Seek(pos, 0); return h.WriteString("a") },
+						func() (int, error) { h.Seek(pos, 0); return 0, h.Truncate(int64(size)) },
+					} {
+						n++
+						c.Count("oddargs.handle-write")
+						k, werr := write()
+						b, _ := afero.ReadFile(src, "/f")
+						fi, _ := src.Stat("/f")
+						if werr == nil || k != 0 || len(b) != size || fi == nil || !fi.ModTime().Equal(old) {
+							c.Oracle("FAIL oa%d source-changed:handle-write-at-end write kind %d (0 WriteString 1 Write 2 WriteAt 3 WriteString of one byte 4 Truncate to the same size) at offset %d through a handle from ReadOnlyFs.%s (depth %d) over a %d-byte file: returned %d, %v; the source file now has %d bytes, mtime changed: %v", n, wi, pos, open, depth, size, k, werr, len(b), fi != nil && !fi.ModTime().Equal(old))
+						}
+					}
+				}
+				h.Close()
+			}
+		}
+	}
+	c.Extra["odd_arguments"] = fmt.Sprintf("%d modifying calls with no-op looking arguments (zero times, same values, missing names) through ReadOnlyFs over MemMapFs, and every spelling of a write through its handles at the end / start / middle of files of 0..4096 bytes: refused, source unchanged (oracle only)", n)
 }
